@@ -50,8 +50,34 @@ JOBS += [
          wip=True, est_s=60, **G)
     for lo, hi in [(0, 8), (9, 16), (17, 24), (25, 32)]
 ] + [
-    dict(name='c08_bitunpack_32', props=['C08', 'C11'], entry='h_bitunpack_32', enforce='carquet_bitunpack_32',
-         replace=['carquet_bitunpack8_32', 'carquet_bitpack8_32'], min_loop_obligations=2, wip=True, est_s=60, **G),
-    dict(name='c11_bitpack_32', props=['C11', 'C08'], entry='h_bitpack_32', enforce='carquet_bitpack_32',
-         replace=['carquet_bitunpack8_32', 'carquet_bitpack8_32'], min_loop_obligations=2, wip=True, est_s=60, **G),
 ]
+
+
+def mulw(w):
+    """x * w for the constant w as shifts/adds/subs (non-adjacent form), as a function-like macro body"""
+    if w == 0:
+        return '((size_t)(x) - (size_t)(x))'
+    terms, k, n = [], 0, w
+    while n:
+        if n & 1:
+            d = 2 - (n & 3)          # +1 or -1
+            terms.append((d, k))
+            n -= d
+        n >>= 1
+        k += 1
+    terms.sort(key=lambda t: -t[1])
+    out = ''
+    for d, k in terms:
+        t = '((size_t)(x) << %d)' % k if k else '(size_t)(x)'
+        out += (' + ' if d > 0 else ' - ') + t if out else t
+    return '(' + out + ')'
+
+
+for w in range(0, 33):
+    d = ['CQV_BW_LO=%d' % w, 'CQV_BW_HI=%d' % w, 'CQV_MULW(x)=' + mulw(w)]
+    JOBS.append(dict(name='c08_bitunpack_32_w%02d' % w, props=['C08', 'C11'], entry='h_bitunpack_32', enforce='carquet_bitunpack_32',
+                     replace=['carquet_bitunpack8_32', 'carquet_bitpack8_32'], min_loop_obligations=2, defines=d, timeout=240,
+                     tier='quick' if w in (0, 3, 8, 13, 32) else 'thorough', wip=True, est_s=60, **G))
+    JOBS.append(dict(name='c11_bitpack_32_w%02d' % w, props=['C11', 'C08'], entry='h_bitpack_32', enforce='carquet_bitpack_32',
+                     replace=['carquet_bitunpack8_32', 'carquet_bitpack8_32'], min_loop_obligations=2, defines=d, timeout=240,
+                     tier='quick' if w in (0, 3, 8, 13, 32) else 'thorough', wip=True, est_s=60, **G))
